@@ -40,4 +40,10 @@ with concurrent.futures.ThreadPoolExecutor(max_workers=8) as ex:
         m['undecided_in']={k:v['undecided'] for k,v in res.items() if isinstance(v,dict) and 'undecided' in v}
         m['detected_by_own_property_check']= own in m['detected_by']
         json.dump(m,open(mp,'w'),indent=1)
-if len(sys.argv)==1: json.dump(out,open('/verif/seeded/results.json','w'),indent=1)
+if os.environ.get('NOMETA'): sys.exit(0)
+if len(sys.argv)>1:
+    # partial run: merge into the recorded matrix
+    try: full=json.load(open('/verif/seeded/results.json'))
+    except Exception: full={}
+    full.update(out); out=full
+json.dump(out,open('/verif/seeded/results.json','w'),indent=1,sort_keys=True)
